@@ -6,6 +6,7 @@ import (
 	"os"
 	"reflect"
 	"testing"
+	"time"
 
 	"github.com/pgavlin/dawn/internal/mvs"
 	"github.com/pgavlin/dawn/verif/ev"
@@ -33,6 +34,8 @@ type Case struct {
 	U    mvssim.Universe  `json:"u"`
 	Root []mvssim.RootReq `json:"root"`
 	Fail int              `json:"fail"` // project whose first fetch fails in the fault-injection pass (-1 = none)
+	Race bool             `json:"race,omitempty"` // also resolve with two resolvers at once on one fresh cache
+	Skew int              `json:"skew,omitempty"` // start of the second resolver, in half milliseconds
 }
 
 func hasCycle(u *mvssim.Universe, root []mvssim.RootReq) bool {
@@ -170,6 +173,35 @@ func exec(c Case) (v ev.Verdict) {
 			}
 		}
 	}
+	// two processes (here: two resolvers) share one download cache and resolve at the same time, while
+	// checkouts take a while: each must get the reference list (or an error), never a shorter one
+	if c.Race {
+		cache6, _ := os.MkdirTemp("", "c10-cache-")
+		defer os.RemoveAll(cache6)
+		type out struct {
+			got map[string]string
+			err error
+		}
+		ch := make(chan out, 2)
+		for k := 0; k < 2; k++ {
+			repo6 := mvssim.NewRepo(u)
+			repo6.SlowFetch = 2 * time.Millisecond
+			res6 := mvs.NewResolver(cache6, repo6.Dialer(), nil)
+			delay := time.Duration(k*c.Skew) * 500 * time.Microsecond
+			go func() {
+				time.Sleep(delay)
+				got, err := mvs.BuildList(ctx, cfg, res6)
+				ch <- out{got, err}
+			}()
+		}
+		for k := 0; k < 2; k++ {
+			o := <-ch
+			if o.err == nil && !reflect.DeepEqual(strip(o.got), want) {
+				return ev.Failf("shared-cache-race", "two resolvers sharing one download cache: one returned %v without an error, want %v", strip(o.got), want)
+			}
+		}
+		v.Classes = append(v.Classes, "concurrent-resolvers-on-one-cache")
+	}
 	// cold cache, renamed requirements everywhere
 	repo4 := mvssim.NewRepo(u)
 	repo4.NameSalt = "zz-"
@@ -189,6 +221,9 @@ func TestC10(t *testing.T) {
 	ev.Explore(run, t, "buildlist", run.N(600, 6000), func(rt *rapid.T) Case {
 		u := mvssim.GenUniverse(rt)
 		c := Case{U: u, Root: mvssim.GenRoot(rt, &u), Fail: -1}
+		if rapid.IntRange(0, 3).Draw(rt, "race") == 3 {
+			c.Race, c.Skew = true, rapid.IntRange(0, 8).Draw(rt, "skew")
+		}
 		if rapid.IntRange(0, 2).Draw(rt, "fault") == 2 {
 			c.Fail = rapid.IntRange(0, 6).Draw(rt, "failproj")
 		}
